@@ -247,7 +247,14 @@ type callResult struct {
 	Fail    string
 	// raw-encoding observations of the whole run (set on the first callResult)
 	RawUpper, RawLong, RawShort, RawCall, RawHost string
+	// Shadow: with the listener factory wrapped in experimental.MultiFunctionListenerFactory next to a second recording
+	// factory (multiFactory), what the SECOND listener set saw during this call
+	Shadow []Event
 }
+
+// multiFactory: runProgram installs MultiFunctionListenerFactory(recording factory, a second recording factory)
+// instead of the recording factory alone (the combinator hands each of its listeners a stack iterator of its own).
+var multiFactory bool
 
 // runProgram instantiates env, B, A and performs the start function and the top-level calls.
 // Returns one callResult per API-level call that was made (start first when present).
@@ -267,15 +274,23 @@ func runProgram(p *Program, engine string, S lset) (out []callResult, fault erro
 		}
 	}()
 	ctx := context.Background()
+	var rec2 *recorder
 	if S != nil {
-		ctx = experimental.WithFunctionListenerFactory(ctx, experimental.FunctionListenerFactoryFunc(
-			func(def api.FunctionDefinition) experimental.FunctionListener {
+		mk := func(rc *recorder) experimental.FunctionListenerFactory {
+			return experimental.FunctionListenerFactoryFunc(func(def api.FunctionDefinition) experimental.FunctionListener {
 				id := idOfDef(def)
 				if S[id] {
-					return &lsn{id: id, rec: rec}
+					return &lsn{id: id, rec: rc}
 				}
 				return nil
-			}))
+			})
+		}
+		if multiFactory {
+			rec2 = &recorder{ids: idOfDef, types: rec.types}
+			ctx = experimental.WithFunctionListenerFactory(ctx, experimental.MultiFunctionListenerFactory(mk(rec), mk(rec2)))
+		} else {
+			ctx = experimental.WithFunctionListenerFactory(ctx, mk(rec))
+		}
 	}
 	rt := wazero.NewRuntimeWithConfig(ctx, rtConfig(engine, p.Tail))
 	defer rt.Close(ctx)
@@ -339,6 +354,9 @@ func runProgram(p *Program, engine string, S lset) (out []callResult, fault erro
 	if p.Start != nil {
 		cr := callResult{Events: rec.evs, Fail: classify(err)}
 		rec.evs = nil
+		if rec2 != nil {
+			cr.Shadow, rec2.evs = rec2.evs, nil
+		}
 		out = append(out, cr)
 		if err != nil {
 			return out, nil
@@ -364,6 +382,9 @@ func runProgram(p *Program, engine string, S lset) (out []callResult, fault erro
 		}
 		cr := callResult{Events: rec.evs, Results: res, Fail: classify(err)}
 		rec.evs = nil
+		if rec2 != nil {
+			cr.Shadow, rec2.evs = rec2.evs, nil
+		}
 		out = append(out, cr)
 		if strings.HasPrefix(cr.Fail, "exit") {
 			break // the module is closed
